@@ -344,7 +344,7 @@ func validatorCovers(fn *ssa.Function) map[string]bool {
 						continue
 					}
 					for _, x := range b.Instrs {
-						if ret, ok := x.(*ssa.Return); ok && len(ret.Results) > 0 && ir.IsNilConst(ret.Results[0]) {
+						if ret, ok := x.(*ssa.Return); ok && len(ir.Results(ret)) > 0 && ir.IsNilConst(ir.Results(ret)[0]) {
 							bad = true
 						}
 					}
